@@ -448,6 +448,13 @@ def extremes(target):
               b"\0D" + b"x" * 10001 + b"\0", b"\1Z" + b"y" * 9997 + b"\0", b"\1Z" + b"y" * 9998 + b"\0", b"\1Z" + b"y" * 9999 + b"\0",
               b"\1Z" + b"y" * 20000 + b"\0", b"\0D" + b"\n" * 12000 + b"\0", b"\0D" + b"x" * 1000000 + b"\0", b"\0\0\0\0\0", b"\0K\0" * 30,
               b"".join(bytes([i]) + b"Dfail\0" for i in range(256))]
+    elif target == "cdb":
+        import random
+        r = random.Random(7)
+        db = cdb_seed(r)
+        keys = bytes([3]) + b"".join(bytes([len(k)]) + k for k in (CDB_KEYS[0], CDB_KEYS[7], b"absent"))
+        E += [keys + db[:i] for i in range(0, len(db) + 1, 8)]                 # truncation at every 8-byte boundary
+        E += [keys + db[:i] + bytes([db[i] ^ 0xff]) + db[i + 1:] for i in range(0, 2048, 4)]   # every header word damaged
     elif target == "control":
         E += [b"x" * 1000000, b"\n" * 100000, b"a:b\n" * 50000, b"#" * 100000 + b"\n", b" \t" * 50000, b"9" * 100000, b"\0" * 10000]
     return E
